@@ -65,7 +65,7 @@ def generate(tier, rng):
     return cases
 
 
-def project(stream, s):
+def project(case, s):
     """plan dump -> observable of the property (argv per stage, redirections, stdin source, bg, envs)"""
     if not s.startswith("ok|"):
         return s
